@@ -91,3 +91,39 @@ Fixpoint text_reader_grow (buf : bytes) (files : list bytes) : list (option byte
   | [] => []
   | f :: r => let '(b, out) := text_step_grow buf f in out :: text_reader_grow b r
   end.
+
+(* ---- the glob() table function's emission loop.  Transcribed from
+   crates/glaredb_core/src/functions/table/builtin/glob.rs (Glob::poll_pull): a partition holds the
+   list of its path indices ((0..n).skip(k).step_by(p)); one poll with output capacity `cap`:
+     count = min(len, cap); if count == 0 { Exhausted }
+     emit path_indices.iter().rev().take(count)          ("treat paths as a stack")
+     path_indices.truncate(len - count)
+   `caps` is the sequence of capacities of the successive polls. ---- *)
+Fixpoint glob_pull {A} (caps : list nat) (l : list A) : list A :=
+  match caps with
+  | [] => []
+  | cap :: r =>
+      let count := Nat.min (length l) cap in
+      match count with
+      | O => []                                            (* Exhausted *)
+      | S _ => firstn count (rev l) ++ glob_pull r (firstn (length l - count) l)
+      end
+  end.
+
+Definition glob_part {A} (caps : nat -> list nat) (p k : nat) (paths : list A) : list A :=
+  glob_pull (caps k) (deal p k paths).
+Definition glob_multi {A} (caps : nat -> list nat) (p : nat) (paths : list A) : list A :=
+  flat_map (fun k => glob_part caps p k paths) (seq 0 p).
+
+(* the variant without `.rev()`: emits the FIRST count paths and still truncates from the back;
+   not what the code does *)
+Fixpoint glob_pull_norev {A} (caps : list nat) (l : list A) : list A :=
+  match caps with
+  | [] => []
+  | cap :: r =>
+      let count := Nat.min (length l) cap in
+      match count with
+      | O => []
+      | S _ => firstn count l ++ glob_pull_norev r (firstn (length l - count) l)
+      end
+  end.
